@@ -306,7 +306,7 @@ class StatusAttribute(Attribute):
         if isinstance(val, bool):
             return int(val)
 
-        if isinstance(val, float) and val % 1:
+        if isinstance(val, Number) and val % 1:
             raise ValueError(f"Status cannot be a fraction; got {val}")
 
         val = int(val)
